@@ -47,6 +47,15 @@ class ConfigOption(Generic[T]):
         self.value = self.valueType()(string)
 
 class BooleanOption(ConfigOption[bool]):
+    BOOLEAN_STATES = {'1': True, 'yes': True, 'true': True, 'on': True,
+                      '0': False, 'no': False, 'false': False, 'off': False}
+
+    def setFromString(self, string: str):
+        try:
+            self.value = self.BOOLEAN_STATES[string.strip().lower()]
+        except KeyError:
+            raise ValueError("Not a boolean: {}".format(string))
+
     def registerArgparse(self, group: ArgumentGroup):
         enables = [x for x in self.options if x[0] != "!"]
         disables = [x[1:] for x in self.options if x[0] == "!"]
